@@ -94,6 +94,11 @@ Constructs added for `Function.Node.evaluate` / `Function.membership` / the FLD 
 * `a or b` for two pure operands of the same type `Option T` (objects without `__bool__` / `__len__`): `a` unless it
   is `None`, else `b` (`Option.or`).
 
+A `with` statement whose context manager has no effect on values or exceptions (profile `plain_with`: a list of
+context-expression patterns, e.g. `warnings.catch_warnings()`, which only saves and restores the warning filters) and
+has no `as` target is translated as its body (added for the integral defuzzifiers; calls inside the body that only
+configure that context, such as `warnings.simplefilter("ignore")`, are named by `skip_stmts`).
+
 Anything outside the subset raises `Untranslatable` - the tie is then reported as broken (never silently skipped).
 """
 from __future__ import annotations
@@ -1034,6 +1039,10 @@ class Fn:
                 # an effectful external: template is a state transformer  S -> M S
                 return seq(lambda kn: f"{ext.m()} >>= fun σ => {kn} σ") if not ext.pure else f"let σ := {ext.term}\n{after()}"
             raise Untranslatable(f"call statement {ast.unparse(call)[:60]}")
+        if (isinstance(s, ast.With) and len(s.items) == 1 and s.items[0].optional_vars is None
+                and any(match_pattern(ast.parse(p, mode="eval").body, s.items[0].context_expr, {}) for p in self.p.get("plain_with", []))):
+            # a context manager without effect on values / exceptions: the block is its body
+            return self.cs(list(s.body) + list(rest), k, loopk, brk)
         if isinstance(s, ast.With):
             pat = ast.parse("np.nditer(_0, op_flags=[['readwrite']])", mode="eval").body
             binds = {}
